@@ -120,5 +120,29 @@ impl ConnectionH2Emit {
     //@end
 }
 
+
+// (3) the stream-level receive-window credit (C14 "keeps transfers moving"): every flow-controlled octet of a DATA frame — the
+// WIRE payload, pad-length octet and padding included (RFC 9113 §6.9.1) — is given back to the peer's stream window unless
+// the frame ends the stream; crediting by the unpadded length, or skipping frames without data octets, starves an upload.
+pub struct ConnectionH2Credit { pub verif_credits: Ghost<Seq<(u32, u32)>> }
+impl ConnectionH2Credit {
+    // ghost log of the (stream id, increment) pairs handed to queue_window_update (coalescing / arming is its business)
+    pub fn queue_window_update(&mut self, stream_id: u32, increment: u32)
+        ensures final(self).verif_credits@ == old(self).verif_credits@.push((stream_id, increment))
+    { proof { self.verif_credits@ = self.verif_credits@.push((stream_id, increment)); } }
+
+    //@fn lib/src/protocol/mux/h2.rs ConnectionH2::handle_data_frame
+    //@  rename handle_data_frame_stream_credit
+    //@  sig "<E, L>" => ""
+    //@  sig "data: parser::Data,\n        wire_payload_len: u32,\n        context: &mut Context<L>,\n        mut endpoint: E," => "data: Data, wire_payload_len: u32, content_len: usize,"
+    //@  sig "-> MuxResult\n    where\n        E: Endpoint,\n        L: ListenerHandler + L7ListenerHandler," => "-> MuxResult"
+    //@  cut "@start" .. "if !data.end_stream" => "\n        "
+    //@  cut "if !self.flow_control.pending_window_updates.is_empty() {\n            self.readiness.arm_writable();\n        }" .. "MuxResult::Continue\n    }" => ""
+    //@  ensures
+    //@    !data.end_stream ==> final(self).verif_credits@ == old(self).verif_credits@.push((data.stream_id, wire_payload_len)), // [every-wire-octet-of-a-data-frame-is-credited-back-to-the-stream-window]
+    //@    data.end_stream ==> final(self).verif_credits@ == old(self).verif_credits@,                 // [a-frame-that-ends-the-stream-needs-no-stream-credit]
+    //@end
+}
+
 } // verus!
 fn main() {}
